@@ -376,6 +376,10 @@ func (f *Frame) pruneForCase(cc *CaseContract) {
 	for g.Op == "binop" && g.Name == "&&" {
 		g = g.Kids[0] // a compound guard is shaped by its first conjunct (the whole guard is still assumed)
 	}
+	if g.Op == "is" && g.Kids[0].Op == "name" {
+		f.shapeTypeGuard(g.Kids[0].Name, g.Name)
+		return
+	}
 	if g.Op != "binop" || g.Name != "==" {
 		return
 	}
@@ -427,6 +431,32 @@ func (f *Frame) pruneForCase(cc *CaseContract) {
 				}
 			}
 		}
+	}
+}
+
+// shapeTypeGuard handles a case guard `(param is *T)` on an interface-typed parameter: the parameter gets the
+// shape (ARef <tag of *T> r) for a fresh reference r, so that the comma-ok type assertions of the type switch fold
+// to true/false syntactically (anyIs) and the other arms disappear. Only pointer types are shaped.
+func (f *Frame) shapeTypeGuard(pname, tyName string) {
+	e := f.e
+	for _, p := range f.fn.Params {
+		if p.Name() != pname || e.sorts.sortOf(p.Type()) != sAny {
+			continue
+		}
+		t := e.lookupType(tyName, f.fn.Pkg.Pkg)
+		if t == nil {
+			return
+		}
+		if _, isPtr := t.Underlying().(*types.Pointer); !isPtr {
+			return
+		}
+		old := f.vals[p]
+		r := e.declare("p."+pname+".ref", sInt)
+		shaped := app("ARef", fmt.Sprint(e.sorts.tagOf(t)), r)
+		e.assume("true", eq(old.T, shaped))
+		nv := term(shaped, old.Sort, old.Type)
+		f.vals[p] = nv
+		f.params[pname] = nv
 	}
 }
 
